@@ -3,10 +3,41 @@ from . import lemmas as L
 
 S = "gotranx.schemes."
 B = "gotranx.codegen.base.CodeGenerator."
+O = "gotranx.ode.ODE."
+M = "gotranx.ode."
+X = "gotranx.expressions."
+T = "gotranx.sympytools."
+U = "gotranx.cli.utils."
+
+ACCESSORS = [O + "states", O + "parameters", O + "state_derivatives", O + "intermediates"]
+SORTED = [M + "sort_assignments", O + "sorted_assignments", O + "sorted_state_derivatives", O + "sorted_states"]
+UNPACK = [B + "_state_assignments", B + "_parameter_assignments", B + "_missing_variables_assignments", B + "__init__"]
+INDEX = [B + "state_index", B + "parameter_index", B + "monitor_index", B + "missing_index",
+         B + "initial_state_values", B + "initial_parameter_values"]
+SCHEMES = [S + "explicit_euler", S + "generalized_rush_larsen", S + "hybrid_rush_larsen"]
 
 PROPS = {
-    "C05": dict(
-        functions=[S + "explicit_euler", B + "scheme", B + "_state_assignments", B + "_parameter_assignments", B + "__init__"],
+    "C01": dict(
+        functions=[X + "relational_to_piecewise", X + "binary_op", X + "unary_op", X + "build_expression.expr2symbols",
+                   T + "Conditional", T + "ContinuousConditional", B + "rhs"] + SORTED + UNPACK,
         lemmas=L.L1,
+        explanation="reference meaning T of the expression grammar proved against build_expression; emission of rhs proved against rhs_emit",
     ),
+    "C04": dict(functions=INDEX + [B + "rhs", B + "monitor_values", B + "scheme"] + SCHEMES + SORTED + ACCESSORS + UNPACK,
+                lemmas=L.L1 + L.STAB),
+    "C05": dict(functions=[S + "explicit_euler", S + "get_scheme", B + "scheme", U + "add_schemes"] + UNPACK, lemmas=L.L1),
+    "C06": dict(functions=[S + "generalized_rush_larsen", T + "Conditional", S + "get_scheme", B + "scheme", U + "add_schemes"],
+                lemmas=[]),
+    "C07": dict(functions=[S + "hybrid_rush_larsen", S + "generalized_rush_larsen", S + "explicit_euler", S + "get_scheme",
+                           U + "add_schemes", B + "scheme"], lemmas=[]),
+    "C09": dict(functions=[M + "sort_assignments", O + "sorted_assignments", O + "missing_variables", S + "get_scheme"] + ACCESSORS,
+                lemmas=[]),
+    "C12": dict(functions=[O + "sorted_assignments", O + "dependents", B + "__init__", B + "_state_assignments",
+                           B + "_parameter_assignments", B + "rhs", B + "scheme"] + SCHEMES,
+                lemmas=L.STAB + L.C12L),
+    "C13": dict(functions=[O + "missing_variables", O + "dependents", B + "missing_index", B + "_missing_variables_assignments",
+                           B + "rhs", B + "monitor_values", B + "scheme"], lemmas=[]),
+    "C16": dict(functions=["gotranx.atoms.remove_singularities", T + "Conditional"], lemmas=L.STAB + L.C16L),
+    "C20": dict(functions=[T + "states_matrix", T + "rhs_matrix", T + "jacobi_matrix", O + "sorted_states",
+                           O + "sorted_state_derivatives"], lemmas=L.L1),
 }
